@@ -214,21 +214,23 @@ def search(ctx):
             ctx.violation("C01:scaling-zero:%s" % name, "scaling 0 does not give exactly 1 (max dev %.3g)" % float(np.abs(h0.values - 1).max()),
                           dict(kind="scaling0", **info))
         # lies on exactly the detector's pixel coordinates, dims as the detector
-        for res, nm in ((holo, "holo"), (inten, "intensity")):
-            # grids: same dims and coordinate axes; point detectors: results are indexed by point number, in the detector's order
-            okc = set(res.dims) == set(det.dims) and res.transpose(*det.dims).shape == det.shape and \
-                all(np.array_equal(res[c].values, det[c].values) for c in ('x', 'y', 'z') if c in det.coords and c in res.coords)
-            if 'point' not in det.dims:
-                okc = okc and all(c in res.coords for c in ('x', 'y', 'z'))
+        for res, nm in ((holo, "holo"), (inten, "intensity"), (fld, "field")):
+            # grids and point detectors alike: same dims (plus `vector` for the field) and the detector's x, y, z positions
+            rdims = tuple(d for d in res.dims if d != 'vector')
+            okc = set(rdims) == set(det.dims) and res.transpose(*det.dims, ...).shape[:len(det.dims)] == det.shape and \
+                all(c in res.coords and np.array_equal(res[c].values, det[c].values) for c in ('x', 'y', 'z') if c in det.coords)
             if not okc:
-                ctx.violation("C01:coords:%s" % nm, "%s does not lie on the detector's coordinates (dims %r vs %r)" % (nm, res.dims, det.dims),
+                ctx.violation("C01:coords:%s%s" % (nm, ":point-detector" if 'point' in det.dims else ""),
+                              "%s does not lie on the detector's coordinates (dims %r, coordinates %r; detector dims %r, coordinates %r)" % (
+                                  nm, res.dims, sorted(map(str, res.coords)), det.dims, sorted(map(str, det.coords))),
                               dict(kind="coords", **info))
-        # metadata updated with the optics passed in
-        a = holo.attrs
-        if not (a.get("medium_index") == T.NMED and a.get("illum_wavelen") == T.WL and
-                np.allclose(np.asarray(a.get("illum_polarization")), p, atol=1e-15)):
-            ctx.violation("C01:attrs", "result metadata not updated with the optics passed in: %r" % {k: a.get(k) for k in ("medium_index", "illum_wavelen")},
-                          dict(kind="attrs", **info))
+        # metadata updated with the optics passed in, for each of the three results
+        for res, nm in ((holo, "holo"), (inten, "intensity"), (fld, "field")):
+            a = res.attrs
+            if not (a.get("medium_index") == T.NMED and a.get("illum_wavelen") == T.WL and a.get("illum_polarization") is not None and
+                    np.allclose(np.asarray(a.get("illum_polarization")), p, atol=1e-15)):
+                ctx.violation("C01:attrs:%s" % nm, "%s: result metadata not updated with the optics passed in: %r" % (nm, {k: a.get(k) for k in ("medium_index", "illum_wavelen")}),
+                              dict(kind="attrs", **info))
         if (_snapshot(det), repr(sc)) != snap:
             ctx.violation("C01:mutates-input", "calculation modified its detector or scatterer argument", dict(kind="mutate", **info))
         cases.append((det, sc, pol, s, mk, name))
